@@ -1229,6 +1229,13 @@ static Plan stratum_plan(const Stratum& s, uint64_t runseed) {
     for (int z = s.zlo; z <= s.zhi; z++)
       for (int k = 0; k < 4; k++) push(z, 0, false);
   }
+  // purity: the same calls once more in the opposite order, so that every call of the sweep is also made after its
+  // neighbours (a failing call for one code followed by the neighbouring code of the same element, and the reverse);
+  // the self-consistency oracle compares the two results of each call
+  if (O.engine == "purity") {
+    std::vector<Op>& ops = p.tasks[0].ops;
+    for (size_t k = ops.size(); k-- > 0;) { Op o = ops[k]; o.id = p.next_id++; ops.push_back(o); }
+  }
   return p;
 }
 
